@@ -86,6 +86,10 @@ func (s *SwapV2) swapPools(ctx context.Context) []EditableChecker {
 	default:
 	}
 
+	// block execution adds pairs under muPairs while API handlers search routes
+	s.muPairs.RLock()
+	defer s.muPairs.RUnlock()
+
 	pools := make([]EditableChecker, 0, len(s.pairs))
 
 	for _, pair := range s.pairs {
@@ -255,7 +259,15 @@ func (s *SwapV2) Export(state *types.AppState) {
 		return false
 	})
 
+	// block execution adds pairs under muPairs while the API exports the state
+	s.muPairs.RLock()
+	pairs := make(map[PairKey]*PairV2, len(s.pairs))
 	for key, pair := range s.pairs {
+		pairs[key] = pair
+	}
+	s.muPairs.RUnlock()
+
+	for key, pair := range pairs {
 		if pair == nil {
 			continue
 		}
